@@ -263,6 +263,15 @@ fn describe_vs(got: &[u8], want: &[u8]) -> String {
 }
 
 fn zip_complete(bytes: &[u8]) -> Result<(), String> {
+    // the archive ends where the file ends: an end-of-central-directory record (22 bytes + its comment) closes the file.
+    // (The zip crate itself searches the whole file for the record and would accept a package followed by the tail of
+    // an older, longer file.)
+    let closes = (0..=bytes.len().saturating_sub(22)).rev().take(65_536 + 1).any(|o| {
+        bytes[o..].starts_with(b"PK\x05\x06") && o + 22 + u16::from_le_bytes([bytes[o + 20], bytes[o + 21]]) as usize == bytes.len()
+    });
+    if !closes {
+        return Err("bytes follow the end-of-central-directory record of the zip archive (or there is none)".into());
+    }
     let mut z = zip::ZipArchive::new(std::io::Cursor::new(bytes)).map_err(|e| format!("zip central directory unreadable: {}", e))?;
     for i in 0..z.len() {
         let mut f = z.by_index(i).map_err(|e| format!("zip member {}: {}", i, e))?;
